@@ -407,6 +407,7 @@ def run(ck):
     for k, v in list(agg.items())[:: max(1, len(agg) // 5)][:5]:
         ck.sample({"src": v["examples"][0]["src"], "env": v["examples"][0]["env"], "outcome": k[0],
                    "exc": k[4], "lineno": k[1]})
+    literal_family(ck)
     ck.extra["environment_configurations"] = ENV_CONFIGS
     ck.extra["excluded_shapes"] = [
         "expectation `compiles` is attached only to sentences of the spec's grammar written with pairwise distinct "
@@ -420,6 +421,54 @@ def run(ck):
         "string enumeration uses symbols for the delimiters, written out per syntax configuration "
         "(default `{% %} {{ }} {# #}`, ERB-style `<% %> <%= %> <%# %>`)",
     ]
+
+
+# ---------------------------------------------------------------------------
+# supplementary family: literal spellings.  Every short spelling over the number alphabet (which the
+# lexer may read as one or several tokens) placed in an expression must load or fail with a template
+# syntax error inside the source - the property's own classification, nothing is predicted.
+# ---------------------------------------------------------------------------
+
+def _lit_work(chunk):
+    core.use_repo()
+    import jinja2
+    import warnings
+    warnings.simplefilter("ignore")
+    envs = [("default", jinja2.Environment()), ("async", jinja2.Environment(enable_async=True))]
+    out = []
+    for s_ in chunk:
+        for frame in ("{{ %s }}", "{%% if x == %s %%}y{%% endif %%}", "{{ [%s, 1] }}"):
+            src = frame % s_
+            for ename, env in envs[: 1 if frame != "{{ %s }}" else 2]:
+                try:
+                    env.from_string(src)
+                    ast.parse(env.compile(src, raw=True))
+                except jinja2.TemplateSyntaxError as e:
+                    if not (isinstance(e.lineno, int) and 1 <= e.lineno <= 1):
+                        out.append((src, ename, "TemplateSyntaxError with lineno %r outside the source" % (e.lineno,)))
+                except BaseException as e:  # noqa
+                    out.append((src, ename, f"{type(e).__name__}: {str(e)[:80]}"))
+    return out, len(chunk) * 4
+
+
+def literal_family(ck):
+    import itertools
+    from concurrent.futures import ProcessPoolExecutor
+    alpha = "0179_.eExob-+"
+    maxlen = 3 if ck.tier == "quick" else 4
+    spellings = ["".join(t) for n in range(1, maxlen + 1) for t in itertools.product(alpha, repeat=n)]
+    spellings += ["012", "0_9", "007", "1__0", "0x", "0b2", "0o8", "1e", "1.e5", "1_000_000.5", "1.000_000_1", "1e1_0_0", "1_2_3e2",
+                  "9" * 400, "1" + "0" * 5000, "0x" + "f" * 300, "1e999", "1e-999", "0.0" + "0" * 400 + "1", "1_", "_1", "1.1.1", "1..2"]
+    total = 0
+    with ProcessPoolExecutor(max_workers=16) as ex:
+        for bad, n in ex.map(_lit_work, list(core.chunks(spellings, 200))):
+            total += n
+            for src, ename, what in bad:
+                ck.violation({"kind": "literal", "env": ename, "src": src},
+                             f"{ename} environment, {src[:120]!r}: expected compiles or template syntax error, got {what}",
+                             {"kind": "load-outcome", "exc": what.split(":")[0], "family": "literal-spelling"})
+    ck.traces += total
+    ck.extra["literal_spellings_loaded"] = total
 
 
 def replay(ck, rec):
